@@ -8,7 +8,7 @@
 EXTENDS Integers, Sequences, FiniteSets, TLC, Json
 CONSTANTS Depth, HasPart
 Groups == {"mesh", "part"}
-Classes == {"full", "level", "value", "position", "cpus", "g_mesh", "g_part", "g_mesh_part", "g_sink", "off_part", "off_mesh",
+Classes == {"full", "level", "value", "position", "position_cpus", "cpus", "g_mesh", "g_part", "g_mesh_part", "g_sink", "off_part", "off_mesh",
             "vars_mesh", "vars_part", "sort_mesh", "sort_part"}
 \* groups a call of class k (re)produces
 Produces(k) ==
